@@ -70,6 +70,27 @@ TimeFields(c, t) == LET cv == CivilOfStep(c, t) IN
 GridLetter(k) == CASE k = 0 -> "@" [] k = 1 -> "A" [] k = 2 -> "B" [] k = 3 -> "C" [] k = 4 -> "D"
 GridId(c) == IF c.nx >= 1000 \/ c.ny >= 1000 THEN GridLetter(c.nx \div 1000) \o GridLetter(c.ny \div 1000) ELSE "99"
 
+\* ---- the 6-character text of a level in the index record.  v5 is the level in
+\* 1/100000 units (sigma 0.99875 = 99875, 925 hPa = 92500000).  The text holds as
+\* many decimals as fit: 5 for levels below 1 (the leading zero is dropped:
+\* ".99875"), 4 below 10 ("1.0000"), 3 below 100, ... ; it is right-justified.
+DigitCh(k) == CASE k = 0 -> "0" [] k = 1 -> "1" [] k = 2 -> "2" [] k = 3 -> "3" [] k = 4 -> "4"
+                [] k = 5 -> "5" [] k = 6 -> "6" [] k = 7 -> "7" [] k = 8 -> "8" [] k = 9 -> "9"
+RECURSIVE Pow10(_)
+Pow10(k) == IF k <= 0 THEN 1 ELSE 10 * Pow10(k - 1)
+\* n as exactly k decimal digits (zero padded)
+DigitsK(n, k) == [q \in 1..k |-> DigitCh((n \div Pow10(k - q)) % 10)]
+NDigits(n) == IF n = 0 THEN 0 ELSE CHOOSE k \in 1..10 : Pow10(k - 1) <= n /\ n < Pow10(k)
+LevelDecimals(v5) == LET k == 5 - NDigits(v5 \div 100000) IN IF k > 5 THEN 5 ELSE k
+\* the level is a whole number of units of its last printed decimal
+LevelPrintable(v5) == v5 >= 0 /\ (v5 % 100000) % Pow10(5 - LevelDecimals(v5)) = 0 /\ NDigits(v5 \div 100000) <= 4
+LevelChars(v5) ==
+  LET ip == v5 \div 100000
+      dec == LevelDecimals(v5)
+      full == (IF ip = 0 THEN <<"0">> ELSE DigitsK(ip, NDigits(ip))) \o <<".">> \o DigitsK((v5 % 100000) \div Pow10(5 - dec), dec)
+      padded == [q \in 1..(IF Len(full) < 6 THEN 6 - Len(full) ELSE 0) |-> " "] \o full
+  IN SubSeq(padded, Len(padded) - 5, Len(padded))
+
 \* ---- records
 Packed(c, name, t, l) == Pack(Field(c, name, t, l))
 Label(c, t, l, name, nexp, precnum, precden, var1) ==
